@@ -1010,8 +1010,25 @@ var rulePool = &Rule{
 	Run: func(c *Ctx) []Ob {
 		var obs []Ob
 		n := 0
+		// launchers and the worker functions they start
+		targets := map[*ssa.Function]bool{}
 		for _, f := range c.ModFns() {
 			if _, ok := joinedSpawners[fnKey(f)]; !ok {
+				continue
+			}
+			targets[f] = true
+			for _, b := range f.Blocks {
+				for _, ins := range b.Instrs {
+					if g, ok := ins.(*ssa.Go); ok {
+						if sc := g.Call.StaticCallee(); sc != nil && c.IsModFn(sc) {
+							targets[sc] = true
+						}
+					}
+				}
+			}
+		}
+		for _, f := range c.ModFns() {
+			if !targets[f] {
 				continue
 			}
 			loops := loopsOf(f)
@@ -1062,6 +1079,11 @@ var rulePool = &Rule{
 									return
 								}
 								if _, _, ok := paramPath(x.X, 0); ok {
+									return
+								}
+								if fa, ok := x.X.(*ssa.FieldAddr); ok {
+									// field of an object: the object decides (per-task result object vs one shared accumulator)
+									walk(fa.X, d+1)
 									return
 								}
 								if ia, ok := x.X.(*ssa.IndexAddr); ok {
@@ -1129,7 +1151,10 @@ var rulePool = &Rule{
 						case *ssa.IndexAddr:
 							// element of a slice: per-index slot (e.g. chs[i], resultSorters[i]) — the slice itself is launcher-local bookkeeping
 							return
-						case *ssa.FieldAddr, *ssa.Field, *ssa.Extract, *ssa.Slice, *ssa.Lookup, *ssa.Index, *ssa.ChangeType, *ssa.Convert, *ssa.BinOp:
+						case *ssa.Field:
+							walk(x.X, d+1)
+							return
+						case *ssa.FieldAddr, *ssa.Extract, *ssa.Slice, *ssa.Lookup, *ssa.Index, *ssa.ChangeType, *ssa.Convert, *ssa.BinOp:
 							return
 						}
 					}
